@@ -19,11 +19,18 @@ def plan(tier, seed, kf_ids):
         jobs.append(acc.acc1("c14", "log2", a, a, c, 8, 8, 0, must_ok, 40))
         if not q or c in (one - 128, 3 * one, (1 << 31) - 256) or c == centres[-1]:
             jobs.append(acc.acc1("c14", "ln", a, a, c, 8, 8, 23, must_ok, 40))
+    # wider destination than source (log2_inner must work at the DESTINATION's resolution): tiny neighbourhoods, because 32
+    # dependent 64-bit squarings with symbolic operands exhaust memory beyond a few symbolic bits
+    wide = [3 * one, one + 12345 - 128] + ([] if q else [one - 128, 2 * one - 128, 200 * one, rnd.randrange(one, 1 << 31), rnd.randrange(1 << 15, one)])
+    for c in wide:
+        jobs.append(acc.acc1("c14", "log2", a, "I32F32", c, 8, 8, 0, True, 40, timeout=1500, tag="to_i32f32_c%d" % c))
+    jobs.append(acc.acc1("c14", "ln", a, "I32F32", 3 * one, 8, 8, 23, True, 40, timeout=1500, tag="to_i32f32_c%d" % (3 * one)))
     return {
         "feature": "c14",
         "jobs": jobs,
         "functions": ["transcendental.rs: log2, log2_inner, rs, ln"],
-        "bounds": "I9F23: neighbourhoods of 2^8 consecutive operands straddling 1, 2, 1/2, the powers of two, the Err/Ok threshold, "
+        "bounds": "I9F23 -> I32F32 (destination finer than the source): neighbourhoods of 2^8 operands at 3.0 and 1.0015 (quick) + 5 more (thorough), "
+                  "7 GB / 250 s each; I9F23: neighbourhoods of 2^8 consecutive operands straddling 1, 2, 1/2, the powers of two, the Err/Ok threshold, "
                   "the maximum, and seeded operands; tolerance 8 ulp (ln: + 2^-23 |ln x|)",
         "outside": ["operands outside the neighbourhoods", "64/128-bit types (memory)", "exactness of log2 at powers of two and the sign "
                     "around 1 are implied by the 8-ulp enclosure only up to the tolerance"],
